@@ -62,6 +62,26 @@ FILES = {
     "config/eval/context.go": ["C07"],
     "internal/math/float/float.go": ["C19"],
     "internal/hash/memhash.go": ["C04", "C05"],
+    # second tier: configuration, built-in functions, views, helpers
+    "qframe_gen.go": ["C09", "C01", "C10"],
+    "filter/filter.go": ["C02", "C10"],
+    "function/int.go": ["C07", "C06"],
+    "function/float.go": ["C07", "C06"],
+    "function/bool.go": ["C07", "C06"],
+    "function/string.go": ["C07", "C06"],
+    "aggregation/strings.go": ["C04"],
+    "config/csv/config.go": ["C12", "C13", "C15", "C17"],
+    "config/sql/config.go": ["C19"],
+    "config/groupby/config.go": ["C04", "C05"],
+    "config/newqf/config.go": ["C08", "C17", "C09"],
+    "config/rolling/config.go": ["C10"],
+    "config/eval/config.go": ["C07"],
+    "internal/ncolumn/column.go": ["C10", "C09", "C12"],
+    "internal/strings/set.go": ["C02", "C08", "C10"],
+    "internal/math/integer/int.go": ["C07", "C04"],
+    "internal/maps/maps.go": ["C17", "C12", "C14"],
+    "qerrors/error.go": ["C10"],
+    "types/types.go": ["C12", "C14", "C10"],
 }
 
 OPS = [
